@@ -1,9 +1,9 @@
 package main
 
 import (
-	"go/types"
 	"go/constant"
 	"go/token"
+	"go/types"
 	"strings"
 
 	"golang.org/x/tools/go/ssa"
